@@ -249,6 +249,8 @@ pub fn c06(seed: u64, n: usize) {
         emit_invc("C06", &qy.fam, &qy.ks, &qy.pose, &prev, o);
         if qy.ks.stack.is_empty() { emit_h_iki5("C06", &qy.fam, &qy.ks.p, &qy.pose, j6); }
     }
+    // the 5-DOF entry points of a robot with shape delegate to the 5-DOF entry points of its stack (J6 as requested)
+    crate::props_coll::kws_cases("C06", &mut r, (n / 60).max(12), &[2, 3], false);
 }
 
 /// C08: constrained vs unconstrained on the same query
